@@ -453,6 +453,11 @@ class MatchObj:
 
 
 # ------------------------------------------------------------------ heap objects
+class PartialDict(dict):
+    def __missing__(self, key):
+        raise Unsupported(f"model data key {key!r} is not part of this contract's model")
+
+
 class SObj:
     """heap object with concrete structure: class name + field dict (values may be symbolic)"""
 
@@ -461,6 +466,10 @@ class SObj:
     def __init__(self, cls, **fields):
         self.cls = cls
         self.fields = dict(fields)
+        # a machine model's data dictionary given by a contract lists only the keys that contract is about: reading any
+        # OTHER key is "outside what the contract models" (undecided), not the KeyError a real model file would never raise
+        if cls == "MachineModel" and type(self.fields.get("_data")) is dict:
+            self.fields["_data"] = PartialDict(self.fields["_data"])
         SObj._next[0] += 1
         self.oid = SObj._next[0]
 
